@@ -1005,3 +1005,77 @@ Example quota_locked_witness :
                 [0; 1; 2; 0; 0; 1; 0; 0; 2; 2; 2; 2] in
   fst s = {| q_n := 2; q_lock := false |} /\ map l_pc (snd s) = [LCreated; LBusy; LFailed].
 Proof. vm_compute. auto. Qed.
+
+(* ================================================================ 7. the index tracks the records (count = existing codes) *)
+Lemma filter_all {A} (f : A -> bool) l : (forall x, In x l -> f x = true) -> filter f l = l.
+Proof.
+  induction l as [|x t IH]; intros H; cbn; [reflexivity|]. rewrite (H x (or_introl eq_refl)). f_equal. apply IH.
+  intros y Hy. apply H. now right.
+Qed.
+Lemma imem_In k l : imem k l = true <-> In k l.
+Proof.
+  unfold imem. rewrite existsb_exists. split.
+  - intros (x & Hx & E). apply N.eqb_eq in E. now subst.
+  - intros H. exists k. split; [exact H|apply N.eqb_refl].
+Qed.
+
+Definition i_thread_ok (sh : ish) (pc : ipc) : Prop :=
+  match pc with
+  | ICreate id 0 => True
+  | ICreate id 1 => In id (i_stored sh)
+  | ICreate id _ => In id (i_stored sh) /\ In id (i_index sh)
+  | IList _ => True
+  end.
+Definition IInv (s : ish * list ipc) : Prop :=
+  (forall k, In k (i_index (fst s)) -> In k (i_stored (fst s))) /\ Forall (i_thread_ok (fst s)) (snd s).
+
+Lemma i_thread_ok_mono sh sh' pc :
+  (forall k, In k (i_stored sh) -> In k (i_stored sh')) -> (forall k, In k (i_index sh) -> In k (i_index sh')) ->
+  i_thread_ok sh pc -> i_thread_ok sh' pc.
+Proof.
+  intros Hs Hi. destruct pc as [id [|[|n]]|n]; cbn; auto. intros [A B]. split; auto.
+Qed.
+
+Lemma i_step s i : IInv s -> IInv (sys_step _ _ (istep RecordFirst) s i).
+Proof.
+  destruct s as [sh ls]. unfold IInv, sys_step. cbn [fst snd]. intros [Hsub Hf].
+  destruct (nth_error ls i) as [pc|] eqn:E; [|cbn [fst snd]; auto].
+  pose proof (Forall_nth_error _ _ _ _ Hf E) as Hpc.
+  destruct pc as [id [|[|n]]|[|n]]; cbn [istep fst snd i_stored i_index].
+  - split; [intros k Hk; cbn; right; apply Hsub, Hk|].
+    apply Forall_upd_nth; [|cbn; left; reflexivity].
+    eapply Forall_impl; [|exact Hf]. intros pc0. apply i_thread_ok_mono; cbn; auto.
+  - cbn in Hpc. split; [intros k [<-|Hk]; [exact Hpc|apply Hsub, Hk]|].
+    apply Forall_upd_nth; [|cbn; split; [exact Hpc|left; reflexivity]].
+    eapply Forall_impl; [|exact Hf]. intros pc0. apply i_thread_ok_mono; cbn; auto.
+  - split; [exact Hsub|]. apply Forall_upd_nth; [exact Hf|exact Hpc].
+  - split; [exact Hsub|]. apply Forall_upd_nth; [exact Hf|exact I].
+  - (* a list: every index entry has its record, so nothing is dropped *)
+    rewrite (filter_all _ (i_index sh)) by (intros k Hk; apply imem_In, Hsub, Hk).
+    split; [exact Hsub|]. apply Forall_upd_nth; [|exact I].
+    eapply Forall_impl; [|exact Hf]. intros pc0. apply i_thread_ok_mono; cbn; auto.
+Qed.
+
+(* every code whose Create has returned is in the client's index and has its record — for any number of concurrent creates
+   and of concurrent lists and every schedule of their storage calls: the quota's count misses nothing *)
+Theorem index_tracks_records (ids : list N) (lists : list nat) sched :
+  let s := irun RecordFirst {| i_stored := []; i_index := [] |} (map (fun id => ICreate id 0) ids ++ map IList lists) sched in
+  (forall k, In k (i_index (fst s)) -> In k (i_stored (fst s))) /\
+  (forall id n, In (ICreate id (S (S n))) (snd s) -> In id (i_stored (fst s)) /\ In id (i_index (fst s))) /\
+  i_counted (fst s) = length (i_index (fst s)).
+Proof.
+  intros s.
+  assert (H : IInv s).
+  { unfold s, irun. apply inv_all_schedules; [intros s0 i; apply i_step|].
+    split; [intros k []|]. cbn [fst snd]. apply Forall_app. split; apply Forall_forall; intros pc Hpc; apply in_map_iff in Hpc;
+      destruct Hpc as (x & <- & _); exact I. }
+  destruct H as [Hsub Hf]. split; [exact Hsub|]. split.
+  - intros id n Hin. rewrite Forall_forall in Hf. exact (Hf _ Hin).
+  - unfold i_counted. rewrite filter_all; [reflexivity|]. intros k Hk. apply imem_In, Hsub, Hk.
+Qed.
+
+(* the two writes swapped: append, LIST, record — the code exists, its Create has returned, and it is not counted *)
+Lemma index_first_refuted :
+  exists sched, let s := irun IndexFirst {| i_stored := []; i_index := [] |} [ICreate 7 0; IList 1] sched in
+                snd s = [ICreate 7 2; IList 0] /\ i_stored (fst s) = [7%N] /\ i_counted (fst s) = 0.
+Proof. exists [0; 1; 0]. vm_compute. auto. Qed.
